@@ -32,4 +32,16 @@ for nm, en, ti in (("sm9_g1_import", "h_g1_import", "sm9_z256_point_from_uncompr
     OBLIGATIONS.append({"id": "C12." + nm, "harness": "harness/C12/sm9import.c", "entry": en, "units": ["sm9_z256.c"],
                         "remove": {"sm9_z256.c": SM9RM + ["sm9_z256_modp_to_mont", "sm9_z256_point_is_on_curve", "sm9_z256_twist_point_is_on_curve"]}, "unwind": 135, "unwindset": ["memcmp.0:200"], "timeout": 600, "backends": ["cadical", "kissat"],
                         "title": ti, "bounds": "all 65 / 129 octets, range comparison at full width", "stubs": ["Montgomery conversion: injective recorder", "curve equation tests: arbitrary verdict (decided by C17.tower.*)"]})
+OBLIGATIONS += [
+    {"id": "C12.from_x_bytes", "harness": "harness/C12/fromx.c", "entry": "h_from_x_bytes", "units": ["sm2_z256.c"],
+     "remove": {"sm2_z256.c": ["sm2_z256_modp_to_mont", "sm2_z256_modp_from_mont", "sm2_z256_modp_mont_sqr", "sm2_z256_modp_mont_mul", "sm2_z256_modp_add", "sm2_z256_modp_sub", "sm2_z256_modp_mont_sqrt", "sm2_z256_modp_neg",
+                               "sm2_z256_print", "sm2_z256_point_print", "sm2_z256_point_affine_print", "sm2_z256_from_hex", "sm2_z256_equ_hex", "sm2_z256_point_from_hex", "sm2_z256_point_equ_hex", "sm2_z256_point_from_hash", "sm2_z256_point_to_der", "sm2_z256_point_from_der", "sm2_z256_rand_range"]},
+     "unwind": 40, "timeout": 600, "backends": ["cadical", "kissat"],
+     "title": "sm2_z256_point_from_x_bytes (compressed points): accepted only for x < p with a square root; X = mont(x), Z = 1, Y = the root with the requested parity",
+     "bounds": "all 32-byte x, both parities, range comparison at full width", "stubs": ["field arithmetic (curve polynomial, sqrt, conversions, negation): abstract, logged"]},
+    {"id": "C12.tls13_server_side_key_share.len71", "harness": "harness/C12/keyshare2.c", "entry": "h_process_client_key_share", "units": ["tls_ext.c", "tls.c", "tls_trace.c"],
+     "remove": {"tls.c": ["tls_record_recv", "tls_record_send"], "tls_ext.c": ["tls13_server_key_share_ext_to_bytes"]}, "defs": ["-DEL=71"], "unwind": 75, "timeout": 600,
+     "title": "tls13_process_client_key_share (server side): the client's share is used only if its 65 octets passed sm2_z256_point_from_octets; no other decoder; the validated point is handed back",
+     "bounds": "extension body of 71 arbitrary bytes (exact-size object)", "stubs": ["sm2_z256_point_from_octets: recording, arbitrary verdict", "other point decoders: flagged"]},
+]
 NOTE = "C12: imported keys and points."
